@@ -106,3 +106,66 @@ package types
 //@   reveal expSched
 //@   uses expSNonNeg(A, m, tquo(((hasEnd && t > e) ? e : t) - s, step)), expENonNeg(A, m, tquo(((hasEnd && t > e) ? e : t) - s, step))
 //@   prop C02
+//@
+//@ // ---- monotonicity of the schedule in time: a later block never sees a smaller cumulative amount,
+//@ // so the "negative amount" guard of mint never fires and cutting time into blocks cannot change totals ----
+//@ lemma tquoMono(a int, b int, d int)
+//@   requires 0 <= a && a <= b && d > 0
+//@   ensures tquo(a, d) <= tquo(b, d)
+//@   prop C02
+//@ lemma mulMono(c int, p1 int, p2 int)
+//@   requires c >= 0 && p1 <= p2
+//@   ensures c * p1 <= c * p2
+//@   prop C02
+//@ lemma tquoExact(c int, d int)
+//@   requires d > 0 && c >= 0
+//@   ensures tquo(c * d, d) == c
+//@   prop C02
+//@ lemma linSchedMono(A int, s int, e int, t1 int, t2 int)
+//@   requires A >= 0 && s <= t1 && t1 <= t2 && ms(s) < ms(e)
+//@   ensures linSched(A, s, e, t1) <= linSched(A, s, e, t2)
+//@   reveal linSched
+//@   uses mulMono(A * P, ms(t1) - ms(s), ms(t2) - ms(s)), mulMono(A * P, 0, ms(t1) - ms(s)), mulMono(A * P, ms(t1) - ms(s), ms(e) - ms(s))
+//@   uses tquoMono(A * P * (ms(t1) - ms(s)), A * P * (ms(t2) - ms(s)), ms(e) - ms(s))
+//@   uses tquoMono(A * P * (ms(t1) - ms(s)), A * P * (ms(e) - ms(s)), ms(e) - ms(s)), tquoExact(A * P, ms(e) - ms(s))
+//@   prop C02
+//@ lemma expSchedMonoCanary(A int, m int, step int, s int, e int, hasEnd bool, t1 int, t2 int)
+//@   requires A > 0 && m >= 0 && step > 0 && s <= t1 && t1 <= t2 && (hasEnd ==> s <= e)
+//@   ensures expSched(A, m, step, s, e, hasEnd, t1) < expSched(A, m, step, s, e, hasEnd, t2)
+//@   reveal expSched
+//@   expect fail
+//@   prop C02
+//@ lemma expSMonoStep(A int, m int, n int)
+//@   requires A > 0 && m >= 0 && n >= 0
+//@   ensures expS(A, m, n + 1) == expS(A, m, n) + expE(A, m, n) && expS(A, m, n + 1) >= expS(A, m, n)
+//@   uses expENonNeg(A, m, n)
+//@   prop C02
+//@ lemma expSMono(A int, m int, n1 int, n2 int)
+//@   induction n2
+//@   requires A > 0 && m >= 0 && 0 <= n1 && n1 <= n2
+//@   ensures expS(A, m, n1) <= expS(A, m, n2)
+//@   uses expSMonoStep(A, m, n2 - 1)
+//@   prop C02
+//@ lemma expSchedMono(A int, m int, step int, s int, e int, hasEnd bool, t1 int, t2 int)
+//@   requires A > 0 && m >= 0 && step > 0 && s <= t1 && t1 <= t2 && (hasEnd ==> s <= e)
+//@   ensures expSched(A, m, step, s, e, hasEnd, t1) <= expSched(A, m, step, s, e, hasEnd, t2)
+//@   reveal expSched
+//@   uses let n1 = tquo(((hasEnd && t1 > e) ? e : t1) - s, step) in let n2 = tquo(((hasEnd && t2 > e) ? e : t2) - s, step) in
+//@     expENonNeg(A, m, n1) && expENonNeg(A, m, n2) && expSMonoStep(A, m, n1) && expSMono(A, m, n1 + 1, n2)
+//@   prop C02
+//@ // two blocks at t1 < t2 inside one period give the same total as one block at t2
+//@ lemma cadenceTwoBlocks(x1 int, x2 int, m0 int)
+//@   requires 0 <= m0 && m0 <= truncInt(x1) && x1 <= x2
+//@   ensures (truncInt(x1) - m0) + (truncInt(x2) - truncInt(x1)) == truncInt(x2) - m0 && truncInt(x2) - truncInt(x1) >= 0
+//@   prop C02
+//@ // hand-over conserves value: integer part recorded + fractional carry = schedule end value + incoming carry
+//@ lemma handoverConserves(x int)
+//@   requires x >= 0
+//@   ensures truncInt(x) * P + (x - truncInt(x) * P) == x && 0 <= x - truncInt(x) * P && x - truncInt(x) * P < P
+//@   prop C02
+//@ // a finished linear period has minted exactly its configured amount
+//@ lemma linearPeriodExact(A int, s int, e int, t int, carry int)
+//@   requires A >= 0 && ms(s) < ms(e) && t >= e && 0 <= carry && carry < P
+//@   ensures truncInt(linSched(A, s, e, t) + carry) == A
+//@   reveal linSched
+//@   prop C02
